@@ -208,3 +208,23 @@ func init() {
 		File: "reify.go", Old: "	if err := runValidators(v.Interface(), opts.validators); err != nil {\n		return reflect.Value{}, raiseValidation(val.Context(), val.meta(), \"\", err)\n	}\n\n	if err := tryValidate(v); err != nil {\n		return reflect.Value{}, raiseValidation(val.Context(), val.meta(), \"\", err)\n	}\n\n	return pointerize(t, baseType, chaseValuePointers(v)), nil",
 		New: "	verr := runValidators(v.Interface(), opts.validators)\n	if verr == nil {\n		verr = tryValidate(v)\n	}\n	if verr != nil {\n		return reflect.Value{}, raiseValidation(val.Context(), val.meta(), \"\", verr)\n	}\n	return pointerize(t, baseType, chaseValuePointers(v)), nil"})
 }
+
+func init() {
+	// ---------------- C03 ----------------
+	addControl(control{Prop: "C03", Name: "float-upper-bound-not-strict", Rule: "R03a", Kind: "mutant", Quick: true,
+		File: "types.go", Old: "if !(math.MinInt64 <= c.f && c.f < math.MaxInt64) {", New: "if !(math.MinInt64 <= c.f && c.f <= math.MaxInt64) {", Expect: "R03a/(*ucfg.cfgFloat).toInt"})
+	addControl(control{Prop: "C03", Name: "float-guard-in-reject-form", Rule: "R03a", Kind: "mutant", Quick: true,
+		File: "types.go", Old: "if !(c.f < math.MaxUint64) {", New: "if c.f >= math.MaxUint64 {", Expect: "R03a/(*ucfg.cfgFloat).toUint"})
+	addControl(control{Prop: "C03", Name: "negative-int-to-uint", Rule: "R03a", Kind: "mutant",
+		File: "types.go", Old: "	if c.i < 0 {\n		return 0, ErrNegative\n	}\n	return uint64(c.i), nil", New: "	return uint64(c.i), nil", Expect: "R03a/(*ucfg.cfgInt).toUint"})
+	addControl(control{Prop: "C03", Name: "overflow-test-on-other-type", Rule: "R03c", Kind: "mutant",
+		File: "reify.go", Old: "	tmp := reflect.Zero(t)\n	if tmp.OverflowInt(i) {", New: "	tmp := reflect.Zero(tInt64)\n	if tmp.OverflowInt(i) {", Expect: "R03c/ucfg.reifyInt"})
+	addControl(control{Prop: "C03", Name: "uint-overflow-test-dropped", Rule: "R03c", Kind: "mutant",
+		File: "reify.go", Old: "	tmp := reflect.Zero(t)\n	if tmp.OverflowUint(u) {\n		return reflect.Value{}, raiseConversion(opts.opts, val, ErrOverflow, \"uint\")\n	}\n", New: "", Expect: "R03c/ucfg.reifyUint"})
+	addControl(control{Prop: "C03", Name: "duration-bound-off-by-unit", Rule: "R03b", Kind: "mutant",
+		File: "reify.go", Old: "const maxSeconds = int64(math.MaxInt64 / time.Second)", New: "const maxSeconds = int64(math.MaxInt64 / time.Millisecond)", Expect: "R03b/ucfg.reifyDuration"})
+	addControl(control{Prop: "C03", Name: "convert-before-check", Rule: "R03a", Kind: "mutant",
+		File: "types.go", Old: "	if c.u > math.MaxInt64 {\n		return 0, ErrOverflow\n	}\n	return int64(c.u), nil", New: "	i := int64(c.u)\n	if i < 0 {\n		return 0, ErrOverflow\n	}\n	return i, nil", Expect: "R03a/(*ucfg.cfgUint).toInt"})
+	addControl(control{Prop: "C03", Name: "range-test-as-nested-ifs", Rule: "R03a", Kind: "refactor", Quick: true,
+		File: "types.go", Old: "	if !(math.MinInt64 <= c.f && c.f < math.MaxInt64) {\n		return 0, ErrOverflow\n	}\n	return int64(c.f), nil", New: "	if math.MinInt64 <= c.f {\n		if c.f < math.MaxInt64 {\n			return int64(c.f), nil\n		}\n	}\n	return 0, ErrOverflow"})
+}
